@@ -129,6 +129,7 @@ def parsePrim (t : String) : Option (Option Prim) :=
     | "disp" => (parseHex p).map Prim.display | "dbg" => (parseHex p).map Prim.debugFmt
     | "bytes" => (parseHex p).map Prim.bytes
     | "err" => (parseChain p).map fun (m, ss) => Prim.error m ss
+    | "erri" => (parseChain p).map fun (m, ss) => Prim.error m ss   -- sources stored inline: the same value
     | _ => none).map some
   | _ => none
 
